@@ -30,6 +30,7 @@ type funcNames struct {
 	Params  []string    `json:"params,omitempty"`
 	Results []string    `json:"results,omitempty"`
 	Outer   []string    `json:"outer,omitempty"` // for a function literal's contract: the enclosing function's parameters (captured)
+	Sites   map[string][]string `json:"sites,omitempty"` // callee text with site-keyed clauses -> assignment target of each call, in source order
 	LocalPos []int      `json:"-"` // declaration position of each local (current run only)
 	Callees [][2]string `json:"callees,omitempty"` // (callee text, type) of calls through an indexed function value, e.g. subs[i](...)
 	Locals  [][4]string `json:"locals,omitempty"` // (name, type, initial boolean literal if declared with one, role: "val:<loop>:<ranged expr>" / "idx:<loop>" for the value / index variable of a loop outside function literals) in source order
@@ -248,6 +249,49 @@ func (E *Engine) namesOfLit(p *packages.Package, key string) (funcNames, bool) {
 	return fn, true
 }
 
+// sitesOf lists, for the callee texts that have site-keyed stepping stones (after callee#n), what each call of that callee
+// (in source order, outside function literals) is assigned to: the n-th call is then recognised by its target when
+// independent statements are reordered.
+func sitesOf(d *ast.FuncDecl, c *FuncContract, unren map[string]string) map[string][]string {
+	want := map[string]bool{}
+	for k := range c.After {
+		if i := strings.LastIndex(k, "#"); i > 0 {
+			want[k[:i]] = true
+		}
+	}
+	if len(want) == 0 || d == nil || d.Body == nil {
+		return nil
+	}
+	out := map[string][]string{}
+	var visit func(n ast.Node, lhs string)
+	visit = func(n ast.Node, lhs string) {
+		ast.Inspect(n, func(m ast.Node) bool {
+			switch st := m.(type) {
+			case *ast.FuncLit:
+				return false
+			case *ast.AssignStmt:
+				if len(st.Lhs) >= 1 && m != n {
+					for _, r := range st.Rhs {
+						visit(r, exprStr(st.Lhs[0]))
+					}
+					for _, l := range st.Lhs {
+						visit(l, "")
+					}
+					return false
+				}
+			case *ast.CallExpr:
+				text := exprStr(ast.Unparen(st.Fun))
+				if want[text] {
+					out[text] = append(out[text], lhs)
+				}
+			}
+			return true
+		})
+	}
+	visit(d.Body, "")
+	return out
+}
+
 // declForKey finds the declaration a contract key refers to ("F", "T.M", "F$N" -> the enclosing F).
 func (E *Engine) declForKey(p *packages.Package, key string) *ast.FuncDecl {
 	if i := strings.Index(key, "$"); i >= 0 {
@@ -278,7 +322,9 @@ func (E *Engine) collectNames() map[string]funcNames {
 			if d == nil {
 				continue
 			}
-			out[strings.TrimPrefix(path, modulePath+"/")+"."+key] = namesOfDecl(p, d)
+			fnn := namesOfDecl(p, d)
+			fnn.Sites = sitesOf(d, c, nil)
+			out[strings.TrimPrefix(path, modulePath+"/")+"."+key] = fnn
 		}
 	}
 	return out
@@ -697,6 +743,55 @@ func (E *Engine) repairNames(pkgPath string, pc *PkgContracts) {
 			for i := range rec.Outer {
 				if o, n := rec.Outer[i], cur.Outer[i]; o != "" && o != "_" && n != "" && n != "_" && o != n && ren[o] == "" {
 					ren[o] = n
+				}
+			}
+		}
+		if base == key && len(rec.Sites) > 0 {
+			if d := E.findDecl(p, base); d != nil {
+				plain := map[string]string{}
+				for o, n := range ren {
+					if !strings.HasPrefix(o, "\x00") && !strings.HasPrefix(n, "(") {
+						plain[o] = n
+					}
+				}
+				tmp := &FuncContract{After: map[string][]Clause{}}
+				for k := range c.After {
+					tmp.After[renameText(k, plain)] = nil
+				}
+				curSites := sitesOf(d, tmp, nil)
+				for text, targets := range rec.Sites {
+					ntext := renameText(text, plain)
+					cs := curSites[ntext]
+					moved := false
+					m := map[string]int{}
+					for n, tgt := range targets {
+						want := renameText(tgt, plain)
+						hit := -1
+						for k, ct := range cs {
+							if ct == want && want != "" {
+								if hit >= 0 {
+									hit = -2 // ambiguous
+									break
+								}
+								hit = k
+							}
+						}
+						if hit >= 0 {
+							m[fmt.Sprintf("%s#%d", ntext, hit+1)] = n + 1
+							if hit != n {
+								moved = true
+							}
+						}
+					}
+					if moved {
+						if c.SiteMap == nil {
+							c.SiteMap = map[string]int{}
+						}
+						for k, v := range m {
+							c.SiteMap[k] = v
+						}
+						E.nameRepairs = append(E.nameRepairs, fmt.Sprintf("%s.%s: stepping stones of %s follow their assignment targets to the reordered call sites", rel, key, text))
+					}
 				}
 			}
 		}
